@@ -2,7 +2,7 @@
    variables and type constants in type errors.
 
    [select_uniq] appends a numeric suffix to a taken candidate name until the name is free.  The
-   loop of the unchanged tree increments [suffix] but never rebuilds [name], so it spins forever
+   loop before commit 26454e7 incremented [suffix] but never rebuilt [name], so it span forever
    as soon as [name ++ "1"] is taken as well (more than 52 unification variables in one reported
    type).  The loop is modelled with fuel; [None] = the fuel ran out. *)
 From Coq Require Import ZArith String List Bool Arith.
@@ -23,7 +23,7 @@ Section Reg.
   Definition select_uniq_orig (fuel : nat) : option nat :=
     if taken 0 then spin_orig fuel 1 else Some 0.
 
-  (* the repaired loop: the name is rebuilt from the suffix at every iteration *)
+  (* since commit 26454e7 (the code as it is now): the name is rebuilt from the suffix at every iteration *)
   Fixpoint spin_fixed (fuel : nat) (suffix : nat) : option nat :=
     match fuel with
     | O => None
